@@ -53,6 +53,9 @@ func (f *Expt) Call(s *slip.Scope, args slip.List, depth int) (result slip.Objec
 			if 0 <= pow { // exact, an integer
 				return bigToInteger(new(big.Int).Exp(big.NewInt(int64(base)), big.NewInt(int64(pow)), nil))
 			}
+			if base == 0 {
+				slip.DivisionByZeroPanic(s, depth, f, args, "divide by zero")
+			}
 			x := math.Pow(float64(base), float64(pow))
 			if (-1.0 < x && x < 1.0) || float64(math.MaxInt64) < x || x < float64(math.MinInt64) {
 				return slip.DoubleFloat(x)
